@@ -187,6 +187,10 @@ def run_part(ctx):
         for double in (False, True):
             jobs.append((endian, double, 2, False, "single", 0))
             jobs.append((endian, double, 2 if ctx.quick else 3, double, "pairs", 41 if ctx.quick else 17))
+            # frames of different composition (forces on every second frame)
+            jobs.append((endian, double, 3, "alternate", "single", 0))
+            if not ctx.quick:
+                jobs.append((endian, double, 3, "alternate", "pairs", 29))
     with mp.get_context("fork").Pool(min(16, os.cpu_count() or 1)) as pool:
         res = pool.map(_job, jobs, chunksize=1)
     n = 0
